@@ -124,7 +124,7 @@ def reference(case):
                         for n in names:
                             if _handles(item, n):
                                 if item["type"] == "wildcard_placeholders":
-                                    reps = ["*"]
+                                    reps = [".*"]  # a wildcard inside a regular expression
                                 else:
                                     if n not in case["vars"]:
                                         raise ExpectError("variable missing")
